@@ -184,10 +184,24 @@ class SgzCropper(SgzReader):
         il_units = (pad(iline_index_range[1], 4) - iline_index_range[0]) // 4
 
         header = self.regenerate_header(iline_index_range, xline_index_range, zslices_index_range)
-        compressed_bytes = self.loader.read_chunk_range(iline_index_range[0],
-                                                        xline_index_range[0],
-                                                        zslices_index_range[0],
-                                                        il_units, xl_units, z_units)
+        if self.blockshape[0] == 4 and self.blockshape[1] == 4:
+            compressed_bytes = self.loader.read_chunk_range(iline_index_range[0],
+                                                            xline_index_range[0],
+                                                            zslices_index_range[0],
+                                                            il_units, xl_units, z_units)
+        else:
+            # General layouts: the box is aligned to the blockshape, so copy whole disk blocks
+            first_block = [r[0] // b for r, b in zip((iline_index_range, xline_index_range, zslices_index_range),
+                                                     self.blockshape)]
+            n_blocks = [pad(r[1], b) // b - r[0] // b
+                        for r, b in zip((iline_index_range, xline_index_range, zslices_index_range), self.blockshape)]
+            compressed_bytes = bytearray()
+            for i in range(first_block[0], first_block[0] + n_blocks[0]):
+                for x in range(first_block[1], first_block[1] + n_blocks[1]):
+                    for z in range(first_block[2], first_block[2] + n_blocks[2]):
+                        block_id = self.loader.block_dims[2] * (self.loader.block_dims[1] * i + x) + z
+                        compressed_bytes += self.loader._get_compressed_bytes(self.block_bytes * block_id,
+                                                                              self.block_bytes)
         with open(out_file, 'wb') as new_sgz_file:
             new_sgz_file.write(header)
             new_sgz_file.write(compressed_bytes)
